@@ -36,9 +36,11 @@ def encU : UV → String
   | .int i => s!"i{i}"
   | .ints l => "l" ++ ",".intercalate (l.map toString)
   | .obj a b => s!"o{a}:{b}"
+  | .nil => "n"
 
 def decU (s : String) : Option UV :=
-  if s.startsWith "i" then (s.drop 1).toString.toInt?.map .int
+  if s == "n" then some .nil
+  else if s.startsWith "i" then (s.drop 1).toString.toInt?.map .int
   else if s.startsWith "l" then
     let r := (s.drop 1).toString
     if r == "" then some (.ints []) else ((r.splitOn ",").mapM String.toInt?).map .ints
@@ -79,6 +81,18 @@ def parseChecks : Nat → List String → Option (List Chk × List String)
     let (c, r) ← parseCheck r
     let (cs, r) ← parseChecks n r
     pure (c :: cs, r)
+
+/-- (tag, kind) of every base schema in the token stream. -/
+def baseKinds : List String → List (Nat × String)
+  | "B" :: tag :: kind :: r => (match tag.toNat? with | some t => [(t, kind)] | none => []) ++ baseKinds r
+  | _ :: r => baseKinds r
+  | [] => []
+
+/-- Which values base schema `tag` takes as values of its own type. -/
+def tyOf (kinds : List (Nat × String)) (tag : Nat) (v : UV) : Bool :=
+  match kinds.find? (·.1 == tag) with
+  | some (_, k) => v.kind == k
+  | none => true
 
 def parsePipe : Nat → List String → Option (Pipe × List String)
   | 0, _ => none
@@ -166,8 +180,8 @@ def expandIssues (p : Pipe) (log : List (PEv UV)) (tag : Nat) (is : List Nat) : 
       | some v => List.replicate (issueCount k v) pos
       | none => [pos]
 
-def modelObs (p : Pipe) (v : UV) (ptrIn : Bool) : Obs :=
-  let r := parsePipelineK UVal.env vacU p v ptrIn
+def modelObs (kinds : List (Nat × String)) (p : Pipe) (v : UV) (ptrIn : Bool) : Obs :=
+  let r := parsePipelineT UVal.env vacU (tyOf kinds) p v ptrIn
   let out := match r.out with
     | .ok x => .ok x
     | .error (tag, is) => .error (tag, expandIssues p r.log tag is)
@@ -210,29 +224,30 @@ def Obs.renderS (o : Obs) : String :=
 
 /-! the spec oracle: judge an observation by the property's clauses (seenAt / failsAt / abortAt only) -/
 
-def specEval : Pipe → UV → (Except Nat UV) × List (Nat × UV)
+def specEval (kinds : List (Nat × String)) : Pipe → UV → (Except Nat UV) × List (Nat × UV)
   | .base tag _ _ cs, v =>
+    if !tyOf kinds tag v then (.error typeErrTag, [(tag, v)]) else
     let anyFail := (List.range cs.length).any fun k => failsAt UVal.env cs k v
     (if anyFail then .error tag else .ok (seenAt UVal.env cs cs.length v), [(tag, v)])
   | .transform s _ k, v =>
-    match specEval s v with
+    match specEval kinds s v with
     | (.ok x, ins) => (.ok (customTr k x), ins)
     | (.error t, ins) => (.error t, ins)
   | .pipe a b, v =>
-    match specEval a v with
-    | (.ok x, ins) => let (r, ins2) := specEval b x; (r, ins ++ ins2)
+    match specEval kinds a v with
+    | (.ok x, ins) => let (r, ins2) := specEval kinds b x; (r, ins ++ ins2)
     | (.error t, ins) => (.error t, ins)
 
-def specTransforms : Pipe → UV → List (Nat × UV)
+def specTransforms (kinds : List (Nat × String)) : Pipe → UV → List (Nat × UV)
   | .base .., _ => []
   | .transform s i _, v =>
-    match (specEval s v).1 with
-    | .ok x => specTransforms s v ++ [(i, x)]
-    | .error _ => specTransforms s v
+    match (specEval kinds s v).1 with
+    | .ok x => specTransforms kinds s v ++ [(i, x)]
+    | .error _ => specTransforms kinds s v
   | .pipe a b, v =>
-    match (specEval a v).1 with
-    | .ok x => specTransforms a v ++ specTransforms b x
-    | .error _ => specTransforms a v
+    match (specEval kinds a v).1 with
+    | .ok x => specTransforms kinds a v ++ specTransforms kinds b x
+    | .error _ => specTransforms kinds a v
 
 def sortedLe : List Nat → Bool
   | a :: b :: r => a ≤ b && sortedLe (b :: r)
@@ -242,8 +257,8 @@ def dedup : List Nat → List Nat
   | a :: b :: r => if a == b then dedup (b :: r) else a :: dedup (b :: r)
   | l => l
 
-def judge (p : Pipe) (v : UV) (o : Obs) : Option String :=
-  let (ref, ins) := specEval p v
+def judge (kinds : List (Nat × String)) (p : Pipe) (v : UV) (o : Obs) : Option String :=
+  let (ref, ins) := specEval kinds p v
   let inputOf := fun tag => (ins.find? (·.1 == tag)).map (·.2)
   let evBad := o.log.find? fun e =>
     match e with
@@ -263,13 +278,14 @@ def judge (p : Pipe) (v : UV) (o : Obs) : Option String :=
     | _ => false
   if guardBad then some "evaluated-though-guard-false" else
   let trs := o.log.filterMap fun e => match e with | .t i x => some (i, x) | _ => none
-  if trs != specTransforms p v then some "transform-once" else
+  if trs != specTransforms kinds p v then some "transform-once" else
   match ref, o.out with
   | .ok x, .ok y => if x == y then none else some "result-value"
   | .ok _, .error _ => some "rejected-though-no-check-fails"
   | .error _, .ok _ => some "accepted-though-a-check-fails"
   | .error t, .error (t', isRaw) =>
     if t != t' then some "wrong-schema-fails" else
+    if t == typeErrTag then none else          -- the stage that receives a value of another type rejects it
     match baseChecks p t, inputOf t with
     | some cs, some vin =>
       let is := dedup isRaw
@@ -314,14 +330,15 @@ def handleU (line : String) : String :=
         match decU inTok with
         | none => "bad-op"
         | some v =>
-          let m := (modelObs p v ptrIn).renderS
+          let kinds := baseKinds ptoks
+          let m := (modelObs kinds p v ptrIn).renderS
           let s := match implObs with
             | none => "-"
             | some io =>
               match parseObs io with
               | none => "spec-rejects:unparsable-observation"
               | some o =>
-                match judge p v o with
+                match judge kinds p v o with
                 | none => io
                 | some why => "spec-rejects:" ++ why
           m ++ "\t" ++ s
